@@ -142,7 +142,7 @@ type runOpts struct {
 	Snapshots bool // evaluate invariant I at every commit boundary
 	KP        string
 	MaxQuiet  int // extra steps allowed to reach quiescence
-	OnStep    func(idx int, res *scen.StepResult, pm *pairMon)
+	OnStep    func(idx int, res *scen.StepResult, pm *pairMon, before, after *pairState)
 	NoQuiesce bool
 	// FinalVerdict: at the end compare the table with the projection of the
 	// canonical chain (first written block .. head) and the positions with it.
@@ -322,6 +322,7 @@ func (ps *pipeScenario) run(c *vk.Case, o runOpts) *pipeRun {
 	})
 
 	first := uint64(0)
+	prevState := pm.captureLive()
 	doStep := func() *stepRec {
 		mu.Lock()
 		stepIdx++
@@ -410,8 +411,9 @@ func (ps *pipeScenario) run(c *vk.Case, o runOpts) *pipeRun {
 		pm.invariant(live, first, fmt.Sprintf("after step %d", idx), detail)
 
 		if o.OnStep != nil {
-			o.OnStep(idx, res, pm)
+			o.OnStep(idx, res, pm, prevState, live)
 		}
+		prevState = live
 		run.Trace = append(run.Trace, fmt.Sprintf("step%d:%s pos=%d head=%d", idx, errClass(res.Err), sr.Position, chain.Head().Num))
 		if errClass(res.Err) == "error" {
 			run.LastErr = res.Err.Error()
@@ -466,6 +468,14 @@ func (ps *pipeScenario) run(c *vk.Case, o runOpts) *pipeRun {
 		if maxH+1-h > g {
 			g = maxH + 1 - h
 		}
+		if o.Trigger != nil {
+			// a triggered chain event shifts the heights: use what was observed
+			for _, st := range run.Steps {
+				if st.HasPos && int(st.Position)+1-int(chain.Head().Num) > g {
+					g = int(st.Position) + 1 - int(chain.Head().Num)
+				}
+			}
+		}
 		chain.Grow(g)
 		run.Trace = append(run.Trace, fmt.Sprintf("grow(%d)", g))
 	}
@@ -475,7 +485,23 @@ func (ps *pipeScenario) run(c *vk.Case, o runOpts) *pipeRun {
 			maxq = int(chain.Head().Num) + 40
 		}
 		idle := 0
+		settled := false
 		for q := 0; q < maxq && len(c.Res.Violations) == 0; q++ {
+			if o.Trigger != nil && run.TriggerHit && !settled {
+				settled = true
+				// a chain event triggered during these steps may have shortened the chain:
+				// the source "settles" only once the head is above every recorded position
+				maxPos := uint64(0)
+				for _, st := range run.Steps {
+					if st.HasPos && st.Position > maxPos {
+						maxPos = st.Position
+					}
+				}
+				if h := chain.Head().Num; h <= maxPos {
+					chain.Grow(int(maxPos + 1 - h))
+					run.Trace = append(run.Trace, fmt.Sprintf("grow(%d)", maxPos+1-h))
+				}
+			}
 			sr := doStep()
 			run.Steps = append(run.Steps, *sr)
 			if errors.Is(sr.Err, shovel.ErrNothingNew) && sr.HasPos && sr.Position == chain.Head().Num {
